@@ -111,6 +111,8 @@ def convert_grid_2d(
     is_native = len(grid_2d.shape) == 3
 
     if is_native:
+        # mask a copy: the caller's native array (or the structure passed in) is never edited in place
+        grid_2d = np.array(grid_2d)
         grid_2d[:, :, 0] *= np.invert(mask_2d)
         grid_2d[:, :, 1] *= np.invert(mask_2d)
 
